@@ -157,13 +157,15 @@ def one(run, impl, model, wd, name, crc, ops, ib):
     inside_marker = any(l.startswith("G inject") for l in open(os.path.join(d, "trace")))
     W.backup_event_files(d, ops, tr, ib, inj if inside_marker else 0, at)
     bufsz = (4096 if crc & 2 else 8 * 1024 * 1024) - 12
-    rcb, outb, errb = vlib.run_lines(W.big_stack(model), "bkp %s %d %d\n" % (d, crc, bufsz), timeout=300)
+    # every third scenario also evaluates C08_backup_image_is_snapshot on the traced calls (costs a second replay in the model)
+    snap = " snap" if sum(map(ord, name)) % 3 == 0 else ""
+    rcb, outb, errb = vlib.run_lines(W.big_stack(model), "bkp %s %d %d%s\n" % (d, crc, bufsz, snap), timeout=300)
     fb = W.fields(outb[0]) if outb and outb[0].startswith("bkp") else {}
     real_img = W.masked_image_crc(open(os.path.join(d, "bkp"), "rb").read())
     res["stage_model"] = None
     # C08_backup_image_is_snapshot evaluated on this run by the model (hypotheses: no growth / COPY among the writers'
     # calls): n/a, ok or fail
-    res["snapshot_theorem"] = fb.get("snap")
+    res["snapshot_theorem"] = fb.get("snap") if fb.get("snap") != "-" else None
     if inside_marker and not writer_in_time:
         res.pop("stage_model", None)      # the writer outlived the 300 ms wait: where its calls fall is not known
     elif not grew and fb.get("image") != real_img:
